@@ -56,7 +56,7 @@ RingViewInv == RingView(st)                       \* BIOS view = waiting keys, i
 FifoInv     == acc = del \o st.q                  \* delivered in typing order, none lost or repeated
 \* what the ring alone delivers is what the FIFO delivers; a full ring drops the key; the clearing POKEs empty
 InkeyAgrees == [][act'.op = "inkey" => RingInkey(Ring(st)) = Apply(st, act').res]_vars
-DropWhenFull == [][(act'.op = "press" /\ Len(st.q) = Cap) => (st'.q = st.q /\ Ring(st') = Ring(st))]_vars
+DropWhenFull == [][(act'.op = "press" /\ Len(st.q) = Cap) => (st'.q = st.q /\ st'.head = st.head /\ st'.tail = st.tail)]_vars
 StoreBelowCap == [][(act'.op = "press" /\ Len(st.q) < Cap) => st'.q = Append(st.q, act'.k)]_vars
 ClearEmpties == [][IsPoke(act') => Empties(st, act')]_vars
 ClearPoke == [][(act'.op = "pokehead" /\ act'.v = st.tail) => (st'.q = <<>> /\ RingInkey(Ring(st')) = <<>>)]_vars
